@@ -374,10 +374,21 @@ pub fn execute(c: &CtlCase, cfg: &Config) -> Outcome {
                 };
                 let mut idx = 0usize;
                 let mut held: Vec<(tiny_http_rt::Request, usize)> = vec![];
+                // the two usual application loops: `loop { server.recv() }` and
+                // `for rq in server.incoming_requests()` (one iterator for the whole conversation)
+                let through_iterator = script.len() % 2 == 0;
+                let mut incoming = server.incoming_requests();
                 loop {
-                    let rq = match server.recv() {
-                        Ok(rq) => rq,
-                        Err(_) => return,
+                    let rq = if through_iterator {
+                        match incoming.next() {
+                            Some(rq) => rq,
+                            None => return,
+                        }
+                    } else {
+                        match server.recv() {
+                            Ok(rq) => rq,
+                            Err(_) => return,
+                        }
                     };
                     if rq.url() == "/__fresh" {
                         let _ = rq.respond(Response::from_string("fresh"));
